@@ -5,4 +5,5 @@ From Verif Require Import Lib.Bytes Model.Wire Crypto.Sha256 Crypto.Ripemd160 Mo
 Extraction Language OCaml.
 Extraction "../ocaml/c10_model.ml" bz zb bytes_leb ms_sort lib_cosigner_order lib_cosigner_id lib_position
   lib_key_path lib_redeemscript lib_wallet_child_order lib_wallet_redeemscript lib_script_owners
-  spec_multisig_script lib_script_hash sha256 hash160 ms_init ms_run ms_channel ms_sign_input ms_input_verify.
+  spec_multisig_script lib_script_hash sha256 hash160 ms_init ms_run ms_channel ms_sign_input ms_input_verify
+  lib_create_fields ms_channel_fields cs_init cs_run lib_tx_locktime lib_default_sequence.
